@@ -1,5 +1,6 @@
 import ZkElGamal.Model.Decode
 import ZkElGamal.Proofs.Basic
+import ZkElGamal.Proofs.RangeProve
 /-!
 # C08 — decoding and verifying untrusted bytes never panics
 
@@ -13,8 +14,11 @@ the control flow and the length arithmetic only.
 repair the key-pair decoder reaches `assert!(s != 0)` on a well-formed zero secret scalar.
 (The verifiers of the sigma instructions are total functions in the model — their only partial
 operations in Rust are the fixed-size chunk reads after an exact length check — and are covered
-on the implementation side by `catch_unwind` in the correspondence; the range-proof decoders
-and `verification_scalars` are treated in C04.)
+on the implementation side by `catch_unwind` in the correspondence.)
+
+Range proofs: `parseIpp_lengths`, `parseProof_lengths` and `mega_lengths_eq` show that whenever the
+verifier reaches the multiscalar multiplication its operand lists have equal lengths, for every
+input (the only assertion on that path); `verification_scalars`' own guards are `C04.verificationScalars_lengths`.
 -/
 set_option linter.unusedSectionVars false
 namespace Zk.Props.C08
@@ -231,4 +235,57 @@ theorem keypair_unfixed_panics {F G : Type} [Field F] [DecidableEq F] [AddCommGr
   simp only [Bind.bind, Outcome.bind, t1, t2, decodePoint, decodeScalar, hpb, hz32, ne_eq,
     not_true_eq_false, if_false, hP, hz, Outcome.ofOption, pubkeyNew, beq_self_eq_true, if_true]
 
+end Zk.Props.C08
+
+/-! ## range-proof verification: the multiscalar operands always have equal lengths -/
+namespace Zk.Props.C08
+open Zk Zk.Range
+
+section range
+variable {F G T : Type} [Field F] [AddCommGroup G] [Module F G] [DecidableEq G]
+  [PtCodec G] [ScCodec F] [PedGens G] [TranscriptOps T]
+
+/-- decoding an inner-product proof yields as many points as compressed slots -/
+theorem parseIpp_lengths (b : Bytes) (ipp : Ipp F G) (h : parseIpp b = some ipp) :
+    ipp.Ls.length = ipp.lB.length ∧ ipp.Rs.length = ipp.rB.length ∧ ipp.lB.length = ipp.rB.length := by
+  unfold parseIpp at h
+  simp only at h
+  split at h
+  · cases h
+  split at h
+  · cases h
+  split at h
+  · cases h
+  split at h
+  · cases h
+  simp only [Option.bind_eq_bind, Option.bind_eq_some_iff, Option.pure_def, Option.some.injEq] at h
+  obtain ⟨a, _, bb, _, Ls, hLs, Rs, hRs, rfl⟩ := h
+  refine ⟨Props.C04.mapM_some_length _ _ _ hLs, Props.C04.mapM_some_length _ _ _ hRs, by simp⟩
+
+theorem parseProof_lengths (b : Bytes) (pf : Proof F G) (h : parseProof b = some pf) :
+    pf.ipp.Ls.length = pf.ipp.lB.length ∧ pf.ipp.Rs.length = pf.ipp.rB.length := by
+  unfold parseProof at h
+  split at h
+  · cases h
+  split at h
+  · cases h
+  simp only [Option.bind_eq_bind, Option.bind_eq_some_iff, Option.pure_def, Option.some.injEq] at h
+  obtain ⟨_, _, _, _, _, _, _, _, _, _, _, _, _, _, ipp, hipp, rfl⟩ := h
+  exact ⟨(parseIpp_lengths _ _ hipp).1, (parseIpp_lengths _ _ hipp).2.1⟩
+
+/-- **no size-hint assertion**: whenever the verifier reaches the multiscalar multiplication
+    (context decoded, proof decoded, challenges computed), its two operand lists have equal lengths,
+    for every input — so `optional_multiscalar_mul`'s length assertion cannot fire -/
+theorem mega_lengths_eq (t : T) (gG gH comms : List G) (bls : List ℕ) (b : Bytes) (pf : Proof F G) (c : Challenges F)
+    (hcb : comms.length = bls.length) (hg1 : gG.length = bls.sum) (hg2 : gH.length = bls.sum)
+    (hp : parseProof b = some pf) (hc : challenges t bls.sum pf = some c) :
+    (megaScalars bls pf c).length = (megaPoints gG gH comms pf).length := by
+  obtain ⟨l1, l2⟩ := parseProof_lengths b pf hp
+  obtain ⟨uSq, uInvSq, s, t', d, hvs, rfl⟩ := Props.C04.challenges_some _ _ _ _ hc
+  obtain ⟨q1, q2, q3, q4, -, -⟩ := Props.C04.verificationScalars_lengths _ _ _ _ _ _ _ hvs
+  simp only [megaScalars, megaPoints, List.length_append, List.length_cons, List.length_nil, List.length_map,
+    List.length_zip, List.length_reverse, powers_length, concatZAnd2_length, q1, q2, q3, hg1, hg2, l1, l2, hcb, ← q4]
+  omega
+
+end range
 end Zk.Props.C08
